@@ -174,6 +174,11 @@ pub trait Property: Sync {
     fn sweep_case(&self, _tier: Tier, _i: usize, _ctx: &mut Ctx) -> PResult {
         Ok(())
     }
+    /// run one case inside a child process (used where a hang / OOM is itself the violation);
+    /// exit code 0 = pass, 3 = failure (signature and message printed on stdout)
+    fn child(&self, _bytes: &[u8]) -> i32 {
+        0
+    }
     /// description of what the sweeps enumerate (for the evidence file)
     fn sweep_description(&self) -> Option<String> {
         None
